@@ -80,13 +80,16 @@ def run(sid, props):
     if rc != 0:
         print("patch does not apply:", out); return 3
     results = {}
+    scratch = tempfile.mkdtemp(prefix="govc-seedout-", dir=os.environ.get("TMPDIR") or "/var/tmp")
     try:
         for p in props:
-            rc, out = sh(f"./check {p} quick", cwd="/verif")
+            # evidence and replay files of a run against a broken tree go to a scratch directory, not to /verif/evidence
+            rc, out = sh(f"VERIF_OUT={scratch} ./check {p} quick", cwd="/verif")
             v = [l for l in out.splitlines() if l.startswith("VIOLATION")]
             results[p] = {"exit": rc, "violations": [l[:300] for l in v[:6]], "n_violations": len(v)}
     finally:
         sh("git -C /repo checkout -- . && git -C /repo clean -fdq")
+        shutil.rmtree(scratch, ignore_errors=True)
     print(json.dumps(results, indent=1))
     meta.setdefault("detection", {}).update(results)
     json.dump(meta, open(os.path.join(d, "meta.json"), "w"), indent=1)
